@@ -274,3 +274,18 @@ Definition vmul (c : Qc) (a : row) : row := vscale c a.
 Definition roll_net_deriv (rl : row -> Z -> row) (a k g : Qc) (n1 n2 n3 : Z) (x z : row) : row * row :=
   (vadd (vadd (vmul (- a) x) (vmul k (rl x n1))) (vmul g (rl z n2)), vadd x (vmul (- a) (rl z n3))).
 Definition roll_of (b : backend) : row -> Z -> row := match b with BFortran => fortran_roll | _ => roll end.
+
+(* ================================================================================================ named constants *)
+(* `pi` in an equation: numpy.pi / torch.pi / jax.numpy.pi are the float64 nearest to pi.  The Fortran module declares
+   `double precision :: PI = 4.0*atan(1.0)`: a single-precision expression, i.e. float32(pi), widened (finding D1xx-fortran-pi;
+   repaired by fixes/fix_D1xx_fortran_pi.diff: 4.0d0*atan(1.0d0)).  Flip the switch when that patch lands. *)
+Definition fixed_fortran_pi : bool := false.
+Definition pi_f64 : Qc := Q2Qc (884279719003555 # 281474976710656).
+Definition pi_f32 : Qc := Q2Qc (13176795 # 4194304).
+Definition backend_pi (b : backend) : Qc :=
+  match b with BFortran => if fixed_fortran_pi then pi_f64 else pi_f32 | _ => pi_f64 end.
+(* `E`: numpy.e / torch.e / jax.numpy.e (the Fortran module has no such constant: an equation with E does not compile there) *)
+Definition e_f64 : Qc := Q2Qc (6121026514868073 # 2251799813685248).
+Definition is_fortran (b : backend) : bool := match b with BFortran => true | _ => false end.
+(* guard of the finding: the model uses pi and the backend is Fortran *)
+Definition fortran_pi_free (b : backend) (uses_pi : bool) : bool := fixed_fortran_pi || negb (uses_pi && is_fortran b).
